@@ -4,6 +4,7 @@ import Model.Lib.Ops
 import Model.Lib.Barrel
 import Model.Lib.Adders
 import Model.Gen.Conv
+import Model.Lib.Muxes
 /-! `basic` command: the Lean models of the bit-level generators on concrete operands. -/
 open Lean
 namespace Pyrtl.Drv
@@ -116,5 +117,32 @@ def cmdConv (j : Lean.Json) : Except String Lean.Json := do
     | "rev_twos_comp_repr" => pure (one (revTwosCompRepr a b))
     | _ => throw s!"unknown conv fn {fn}"
   return Lean.Json.mkObj [("ok", .bool true), ("vals", .arr outs.toArray)]
+
+end Pyrtl.Drv
+
+namespace Pyrtl.Drv
+open Pyrtl.Muxes
+
+def msbBits (w v : Nat) : List Bool := (Pyrtl.Synth.ofNat w v).reverse
+
+/-- `muxes` command -/
+def cmdMuxes (j : Lean.Json) : Except String Lean.Json := do
+  let fn ← jStr (← field j "fn")
+  let widths ← jNatList (← field j "widths")
+  let cases ← (← jArr (← field j "cases")).toList.mapM jNatList
+  let rows ← cases.mapM fun c => do
+    match fn with
+    | "mux" =>
+      let nin ← jNat (← field j "nin")
+      let dflt ← jNat (fieldD j "default" (natJson 0))
+      let idx := msbBits (widths.getD 0 0) (c.getD 0 0)
+      pure [mux idx ((c.drop 1).take nin) dflt]
+    | "demux" =>
+      pure ((demuxMsb (msbBits (widths.getD 0 0) (c.getD 0 0))).map fun b => if b then 1 else 0)
+    | "prioritized_mux" =>
+      let n ← jNat (← field j "n")
+      pure [prioritizedMux (n + 1) ((c.take n).map (· != 0)) (c.drop n)]
+    | _ => throw s!"unknown muxes fn {fn}"
+  return Lean.Json.mkObj [("ok", .bool true), ("vals", .arr (rows.map fun r => Lean.Json.arr (r.map natJson).toArray).toArray)]
 
 end Pyrtl.Drv
